@@ -3631,7 +3631,13 @@ def to_base(lhs, rhs, ctx):
     if len(rhs) == 1:
         maximal_exponent = lhs
     else:
-        maximal_exponent = int(log_mold_multi(lhs, len(rhs), ctx))
+        if lhs < 0:
+            raise ValueError("to_base only works on non-negative numbers")
+        # Count the digits exactly: a float logarithm is undefined at 0 and
+        # can be off by one next to large powers of the base
+        maximal_exponent = 0
+        while len(rhs) ** (maximal_exponent + 1) <= lhs:
+            maximal_exponent += 1
 
     res = []
     for i in range(maximal_exponent, -1, -1):
